@@ -1,3 +1,70 @@
-Require Import Base Opcode Tables Ops Tree Lexer Parser Print.
-Example placeholder_C13 : True. Proof. exact I. Qed.
-Print Assumptions placeholder_C13.
+(* C13 — Dump decompiles to an equivalent, re-compilable expression.
+   Only statements; proofs in Proofs/PrefixProofs.v, PrintProofs.v, SourceProofs.v, LexProofs.v, DumpProofs.v, OptSound.v.
+
+   PARTIAL. Proved, for every tree t the compiler can hold (`twf`: literals the lexer can produce — int64 integers,
+   strings, booleans, non-empty integer lists, string lists —, variables registered under their names, operators
+   of the configuration) and every configuration:
+     (1) the text that prints t's tokens — operator heads, variables by name, literals, lists — in ANY white-space
+         layout goes through lexer, parser.check and the prefix parser and yields t with its fast marks cleared
+         (`strip t`): it compiles under the same names to the same expression;
+     (2) strconv.ParseInt inverts the integer printer on all of int64; string literals are taken verbatim
+         (C14_lex_render: spaces, parentheses, semicolons, backslashes, line breaks, non-ASCII are content);
+     (3) the recompiled program — under any optimisation subset — returns the value the original returned whenever
+         both return one (on expressions whose and/or operands are boolean), and is the very same tree when the
+         original carries no fast marks (all effects and errors equal);
+     (4) reading back is idempotent: the recompiled unoptimised tree prints and reads back as itself.
+   NOT proved: that Dump's reconstruction from the parent-index table (`Print.dump`, the model of util.go Dump)
+   prints exactly those tokens for every compiled program, with or without event nodes. That step is tied on every
+   run: the model `dump` is compared with Go's Dump on Go's own exported program, and Go's Compile(Dump(e)),
+   its results on bindings and the second Dump are compared directly. *)
+Require Import Base Opcode Tables Ops Tree Opt Flat Run Directives Lexer Parser Print LexProofs PrefixProofs PrintProofs SourceProofs OptSound DumpProofs.
+Open Scope Z_scope.
+
+(* (1) from text: any layout of the printed tokens reads back as the tree *)
+Theorem C13_reparse : forall c items t,
+  wf_items is_letter_tab is_number_tab false items -> map fst items = ttoks show_Z t -> twf c t -> is_leaf t = false ->
+  parse_source c false (render items) = Some (strip t).
+Proof. intros c. exact (prefix_source c show_Z parse_show_Z). Qed.
+
+Theorem C13_reparse_tokens : forall c t, twf c t -> parse_prefix c false (ttoks show_Z t) = Some (strip t).
+Proof. intros c. exact (parse_prefix_correct c show_Z parse_show_Z). Qed.
+
+(* (2) integers: ParseInt inverts FormatInt on all of int64 *)
+Theorem C13_int_roundtrip : forall z, in_i64 z = true -> parse_int (show_Z z) = Some z.
+Proof. exact parse_show_Z. Qed.
+
+(* (3) same result *)
+Theorem C13_same_value : forall fetch custom cfg' t a b, wt fetch custom t ->
+  snd (sem fetch custom t) = Ok a -> snd (sem fetch custom (optimize custom cfg' (strip t))) = Ok b -> a = b.
+Proof. exact roundtrip_value. Qed.
+Theorem C13_same_everything_without_fast_marks : forall fetch custom t, strip t = t ->
+  sem fetch custom (strip t) = sem fetch custom t.
+Proof. exact roundtrip_exact. Qed.
+
+(* (4) the second round trip is the identity *)
+Theorem C13_second_dump : forall c t, twf c (strip t) ->
+  parse_prefix c false (ttoks show_Z (strip t)) = Some (strip t).
+Proof. intros c t H. rewrite (parse_prefix_correct c show_Z parse_show_Z _ H). rewrite strip_idem. reflexivity. Qed.
+
+(* the unproved step, kept visible: Dump of the compiled program prints t's tokens in some layout *)
+Definition C13_dump_statement : Prop :=
+  forall t, is_leaf t = false -> exists items, dump (compile t) = Some (render items) /\ map fst items = ttoks show_Z t.
+
+(* non-vacuity: a program with a string full of delimiters, a list, a fast operator; its Dump in the model; the
+   round trip through the whole front end *)
+Definition c0 : pconf := {| p_consts := []; p_vars := [(ss "a", 1); (ss "b.c", 2)]; p_ops := [ss "f"]; p_undefined := false |}.
+Definition ex : tree :=
+  TOp (ss "and") false
+    [TOp (ss "=") true [TVar (ss "a") 1; TConst (VStr (ss "x (y); z\ [1]
+ λ"))];
+     TIf (TOp (ss "in") false [TVar (ss "b.c") 2; TConst (VIntL [1; -2; 3])]) (TOp (ss "f") false []) (TConst (VBool false))].
+Example C13_ex_wf : twf c0 ex /\ is_leaf ex = false.
+Proof. cbn [twf ex vwf c0]. repeat split; try reflexivity; [discriminate|repeat constructor]. Qed.
+Example C13_ex_dump : option_map (parse_source c0 false) (dump (compile ex)) = Some (Some (strip ex)).
+Proof. vm_compute. reflexivity. Qed.
+Example C13_ex_dump_events : dump (eventize (compile ex)) = dump (compile ex).
+Proof. vm_compute. reflexivity. Qed.
+
+Print Assumptions C13_reparse.
+Print Assumptions C13_same_value.
+Print Assumptions C13_second_dump.
